@@ -1,6 +1,5 @@
 import HH.Sse
 import HH.Proofs.X86Lemmas
-import Std.Tactic.BVDecide
 import HH.Proofs.PortableSpec
 import Mathlib.Tactic.IntervalCases
 /-!
@@ -65,10 +64,12 @@ theorem remainder_refines_fn (n : Nat) (h : n < 32) (f : Fin 32 → BitVec 8) :
     lanesOfRegs (remainder (List.ofFn f) n).1 (remainder (List.ofFn f) n).2
       = P.dataToLanes (P.remainder ((List.ofFn f).take n)) := by
   interval_cases n <;>
-  simp [remainder, loadMultipleOfFour, P.remainder, P.dataToLanes, lanesOfRegs, unorderedLoad3, zeros, List.ofFn_succ,
-    List.replicate, List.set, List.getD, List.zipWith, loadu_si128, loadl_epi64, ofBytes16, le64, le32,
-    insert_epi32, cvtsi64_si128, set1_epi32, slli_si128, or_si128, and_si128, set_epi64x, lane32, mk32, mk, lo64, hi64] <;>
-  bv_decide
+  (simp [remainder, loadMultipleOfFour, P.remainder, P.dataToLanes, lanesOfRegs, unorderedLoad3, zeros, List.ofFn_succ,
+    List.replicate, List.set, List.zipWith, loadu_si128]
+   try simp only [ofBytes16_mk32, loadl_mk32, zero_mk32, mask_lo, mask_hi, set1_mk32, and_mk32, or_mk32, insert3, lo64_mk32, hi64_mk32, le64_join,
+    List.drop_succ_cons, List.drop_zero]
+   try simp only [cvtsi64_si128, lo64_mk, hi64_mk, load3_1, load3_2, load3_3]
+   try simp [le32_cons4, le32_zero4, and_ones32, join32_zero])
 
 theorem list_eq_ofFn (buf : List (BitVec 8)) (h : buf.length = 32) :
     buf = List.ofFn (fun i : Fin 32 => buf[i.val]'(by omega)) := by
